@@ -1374,6 +1374,13 @@ func (v *Verifier) rangeNext(st *State, x *ssa.Next) {
 		qk := mk(ks, "zz_qk")
 		st.assume(tImp(tNot(ok), mk("Bool", "forall ((zz_qk "+ks+"))", tImp(tAnd(tNot(tEq(it.m, tNilP)), mk("Bool", "select", domA, qk)), mk("Bool", "select", it.visited, qk)))))
 	}
+	{
+		// the same fact for engine-side instantiation (string-sorted quantifiers are not given to the solvers)
+		vis, m := it.visited, it.m
+		st.qfacts = append(st.qfacts, qfact{sort: ks, inst: func(k2 *Term) *Term {
+			return tImp(tNot(ok), tImp(tAnd(tNot(tEq(m, tNilP)), mk("Bool", "select", domA, k2)), mk("Bool", "select", vis, k2)))
+		}})
+	}
 	it.visited = mk(it.visited.Sort, "store", it.visited, k, tTrue)
 	v.addTypeFacts(st, val, mt.Elem())
 	f.tuples[x] = []*Term{ok, k, val}
